@@ -101,7 +101,8 @@ def run(ctx):
                                    "expected": "Close and every call return; no panic",
                                    "monitor": "a panic / fatal error inside the library during a Close schedule"},
                                   True, signature="%s crashed %s" % (crashed["op"], crashed["why"][:120]))
-    for d in concrete[:5]:
+    for d in concrete:
+        if recorded >= 5: break      # cap on RECORDED violations: hits of known findings must not use it up
         sc = re.search(r"sc=(\d+)", d["op"])
         scen = "%s scenario %s (seed %d, tier %s)" % (d["op"].split(" ")[0], sc.group(1) if sc else "?", ctx.seed, ctx.tier)
         recorded += ctx.violation({"kind": "trace", "input": scen, "events": d["op"], "actual": d["impl"], "expected": d["model"],
